@@ -262,7 +262,7 @@ def check(run):
         edges, nodes, errors = skel_mod.impl_graph(g, sk)
         idx = len(meta)
         meta.append((src, sk, g, sname))
-        if not sk.handler_jump:
+        if True:
             graph_cases.append('(%d, %s, %s, %s, %s)' % (idx, sk.term, skel_mod.coq_edges(edges),
                                                         skel_mod.coq_nats(nodes), skel_mod.coq_nats(errors)))
         # traces
@@ -284,7 +284,7 @@ def check(run):
                 else:
                     failures.append(('executed trace is not a path of the CFG built by malt.pyct.cfg: %s between node %s (%s) and node %s (%s)' % (
                         why, a, node_text(sk, a), b, node_text(sk, b)), src, dv, labels))
-            if not sk.handler_jump:
+            if True:
                 trace_cases.append('(%d, %s, %s, %s, %s)' % (idx, sk.term, skel_mod.coq_nats(mdec),
                                                             skel_mod.coq_nats(labels), vlib.coq_bool(returned)))
             if pi < 4 and len(labels) > 4:
